@@ -51,7 +51,7 @@ func reg(p *Prop) {
 type E = []func(*core.Ctx)
 
 func init() {
-	for _, id := range []string{"C05", "C07", "C08", "C10", "C11", "C19"} {
+	for _, id := range []string{"C08", "C10", "C19"} {
 		NotYet[id] = "engine for this property is designed (DESIGN.md section 4) but not yet armed in this commit; not claimed until its check runs clean on the pinned tree"
 	}
 
@@ -271,5 +271,48 @@ func init() {
 			{Rule: "ENC.frame", Min: 50, Why: "message types"},
 		},
 		Explanation: "Nil-dereference rules on accessors, getters, views and codec closures; see level text.",
+	})
+
+	reg(&Prop{
+		ID:        "C05",
+		Technique: "DET rules on every map block of the marshal closure (collect-all, strict-order comparator evaluated on all key orderings, reverse iteration), option flow (same options value at every nested call; flag mapped by runtime.*InputToOptions), effect analysis showing marshal has no hidden state",
+		DesignRef: "DESIGN.md 3.6, 3.10, 4 C05",
+		LevelText: "The only order-dependent construct of an encoder is a range over a Go map; for every map field of every generated type that range sits in the else-arm of `if options.Deterministic`, while the then-arm collects every key of the same map into a fresh slice, sorts it with a comparator that is abstractly evaluated on all orderings of two keys (four value pairs for bool) and must be the strict ascending order, and iterates it in reverse into the back-filled buffer; both arms call the same entry closure. Every nested Size/Marshal call is a method call on the closure's own options value (no proto.Marshal, no fresh options), options is runtime.Marshal/SizeInputToOptions(input), and those map Deterministic from the input flag, so the flag reaches every depth (list elements, map values, oneof members). nil and empty containers are both skipped by the len>0 guards (ENC.field). PURE shows size/marshal write nothing but fresh locals, so the output is a function of the message value. Nothing of the statement remains outside A1-A5.",
+		Engines:      E{codec.RunEnc, codec.RunSize, codec.RunOpts, refl.RunPure},
+		RulePrefixes: []string{"DET", "OPTS.det", "ENC.walk", "ENC.field", "SIZE.walk", "PURE", "G.model", "G.anchor", "GEN.build"},
+		Floors: []core.Floor{
+			{Rule: "DET.map", Min: 40, Why: "map fields"},
+			{Rule: "DET.flow", Min: 100, Why: "size+marshal closures"},
+			{Rule: "OPTS.det", Min: 2, Why: "two option mappings"},
+			{Rule: "PURE", Min: 1000, Why: "read-only entry points"},
+		},
+		Explanation: "DET + option flow + PURE; see level text.",
+	})
+	reg(&Prop{
+		ID:        "C07",
+		Technique: "taint-style rules on the decode interpreter (payload bytes may only flow through string conversion, copy into a fresh buffer, spread-append, or the nested decoder), store scan on the input buffer, buffer provenance of marshal, effect analysis of all read-only entry points",
+		DesignRef: "DESIGN.md 3.10, 4 C07",
+		LevelText: "Decoders: in every arm the payload slice dAtA[i:end] flows only into string(...), copy into make([]byte, len) / append(x.F[:0], ...), the spread operand of append onto x.unknownFields, the element-count pre-pass, or options.Unmarshal for the nested message (same rule by induction; protobuf-go copies: A3); any other use (stored, appended as an element, captured) is reported; no statement stores, copies or appends into the input buffer. Encoders: the output is make([]byte, size) filled only by byte stores/copy/PutUint and returned as append(input.Buf, dAtA...) or dAtA. Read-only calls (Size, Marshal, Has, Get, Range, WhichOneof, getters, String, view reads): PURE shows they perform no store to memory reachable from the message, parameters or globals (down to nil-vs-empty: no store at all). Not decided: proto.Equal itself is library code (A3).",
+		Engines:      E{codec.RunDec, codec.RunEnc, refl.RunPure},
+		RulePrefixes: []string{"ALIAS", "PURE", "ENC.frame", "ENC.walk", "DEC.walk", "UNK.default", "G.model", "G.anchor", "GEN.build"},
+		Floors: []core.Floor{
+			{Rule: "ALIAS.in", Min: 60, Why: "string/bytes fields in all positions"},
+			{Rule: "ALIAS.nowrite", Min: 50, Why: "message types"},
+			{Rule: "ENC.frame", Min: 50, Why: "message types"},
+			{Rule: "PURE", Min: 1000, Why: "read-only entry points"},
+		},
+		Explanation: "ALIAS + PURE; see level text.",
+	})
+	reg(&Prop{
+		ID:        "C11",
+		Technique: "effect analysis (no-write argument): every read-only entry point is shown to perform no non-atomic store to memory reachable from the shared message or from globals",
+		DesignRef: "DESIGN.md 3.10, 4 C11",
+		LevelText: "A data race needs a write. For every read-only entry point of every generated type - Descriptor, Type, New, Interface, Range, Has, Get, WhichOneof, GetUnknown, IsValid, NewField, the size and marshal closures, ProtoReflect, slowProtoReflect, String, the legacy Descriptor, every getter, the read methods of list/map views and the message-type singleton - every store targets a local variable or memory allocated in the same activation, and every callee is in the effect summary table (pure, or writing only into a fresh buffer); the lazy message-info initialisation uses the atomic Load/StoreMessageInfo accessors and rawDescGZIP writes its package variable only inside sync.Once.Do. Hence no two of them can race, for any schedule. Embedded protobuf-go types (Any, Timestamp) are A3. Not decided separately: that each reader observes the sequential result (follows from purity).",
+		Engines:      E{refl.RunPure},
+		RulePrefixes: []string{"PURE", "G.model", "G.anchor", "GEN.build"},
+		Floors: []core.Floor{
+			{Rule: "PURE", Min: 1000, Why: "read-only entry points"},
+		},
+		Explanation: "PURE (no-write argument); see level text.",
 	})
 }
